@@ -61,7 +61,7 @@ def run(tier):
                 reused += 1
                 if (part.split()[0] == "ok") != verdict_of[tuple(w)]:
                     ck.violation("on a parser object used before, tokens %s give `%s` but the sequence is %sa sentence (history %s)" % (w, part.split(" | ")[0], "" if verdict_of[tuple(w)] else "not ", h["hist"]),
-                                 {"bnf": r["text"], "op": h["line"], "impl": h["impl"]})
+                                 {"bnf": r["text"], "op": h["line"], "impl": h["impl"]}, finding_key=fk(r))
     stats["verdicts_on_reused_parser"] = reused
     ck.proof_failures(failed, "C02 theorems")
     ck.cov.update({"evaluations": stats["verdicts"], "distinct_nontrivial": len(nontrivial),
